@@ -227,10 +227,10 @@ fn item(ctx: &Ctx, i: usize, rep: &mut Report) {
             let mut ths = vec![0.0, eps / 2.0, eps, 2.0 * eps, 0.05, 0.1, 0.5, 1.0];
             ths.push(r.f64());
             ths.push(eps + r.f64() * (1.0 - eps));
+            // the two clauses are stated for every threshold: above 1 + eps nothing can qualify,
+            // below 0 everything tracked may be returned
+            ths.extend([1.0 + eps / 2.0, 1.0 + eps + 0.01, 1.3, 10.0, -0.5]);
             for s in ths {
-                if !(0.0..=1.0).contains(&s) {
-                    continue;
-                }
                 checks += 1;
                 let got: HashSet<u64> = lc.query(s).collect();
                 // no misses: only elements with true frequency > eps*n can be required
